@@ -1097,6 +1097,33 @@ def list_packages_bounded(run):
                           clause='list_packages == the children importlib enumerates in the package it loads [%r vs %r]' % (sorted(got), sorted(want)), path=path)
                 finally:
                     shutil.rmtree(top, ignore_errors=True)
+        # names with an empty component, and the working directory standing on the search path as ''
+        top = tempfile.mkdtemp(prefix='supp-c07-')
+        cwd = os.getcwd()
+        import sys as _sysl
+        saved = list(_sysl.path)
+        try:
+            os.makedirs(os.path.join(top, 'alpha'))
+            open(os.path.join(top, 'alpha', '__init__.py'), 'w').close()
+            open(os.path.join(top, 'alpha', 'child_mod.py'), 'w').close()
+            open(os.path.join(top, 'in_cwd_mod.py'), 'w').close()
+            pr = Project([top])
+            for bad in ('alpha.', 'alpha..child_mod', '.alpha', 'alpha..'):
+                got = set(pr.list_packages(bad))
+                prove('no-children-below-a-name-with-an-empty-component[%s]' % bad, 'child_mod' not in got and 'alpha' not in got,
+                      clause='neither %r nor anything below it can be imported: nothing of the tree is proposed [%r]' % (bad, sorted(n for n in got if n in ('alpha', 'child_mod'))), path=path)
+            prove('children-of-the-package-itself', 'child_mod' in pr.list_packages('alpha'), kind='lemma', path=path)
+            os.chdir(top)
+            _sysl.path[:] = [''] + [p_ for p_ in saved if p_ not in ('', '.')]
+            got = Project(['/nonexistent-root']).list_packages('')
+            want = {m.name for m in pkgutil.iter_modules(['']) if m.name.isidentifier()}
+            prove('working-directory-on-the-search-path', {'in_cwd_mod', 'alpha'} <= set(got) and want <= set(got),
+                  clause="'' on sys.path is the working directory: its modules are proposed after `import ` as pkgutil.iter_modules lists them "
+                         '[missing %r]' % (sorted(want - set(got)),), path=path)
+        finally:
+            os.chdir(cwd)
+            _sysl.path[:] = saved
+            shutil.rmtree(top, ignore_errors=True)
     core.explore(lambda: None, lambda p, out: go(p))
 
 
